@@ -110,8 +110,21 @@ def cases(draw, backend):
     attrs = []
     names = []
     for i in range(ncols):
-        pos = draw(st.sampled_from(["col", "arith", "cmp", "arg", "arg", "str-arg", "str-arg", "attr"] if backend == "atlas" else ["col", "arith", "cmp", "arg", "arg", "str-arg", "str-arg"]))
-        if pos in ("col", "arith", "cmp", "arg"):
+        pos = draw(st.sampled_from(["col", "arith", "cmp", "arg", "arg", "str-arg", "str-arg", "attr", "negconst"] if backend == "atlas" else ["col", "arith", "cmp", "arg", "arg", "str-arg", "str-arg", "negconst"]))
+        if pos == "negconst":
+            # a negative number held in ONE Constant node (what a captured python variable becomes; the parser itself produces a unary minus),
+            # next to the operators it must not fuse with
+            kind = draw(st.sampled_from(["int", "float"]))
+            v = draw(ints) if kind == "int" else draw(floats)
+            if isinstance(v, float) and not math.isfinite(v):
+                v = -1.5
+            v = -abs(v) if v != 0 else (-3 if kind == "int" else -0.25)
+            if kind == "int" and v <= -(2**31):
+                v = -7
+            x = f"j.{intm}() * 0" if kind == "int" else "j.pt() * 0"
+            e = subst(parse(draw(st.sampled_from([f"({x} - L)", f"(0 - ({x} - L))", f"(L - {x})", f"(-L + {x})", f"({x} + L - L - L)", f"(({x} + 1) * L)"]))), {"L": C(v)})
+            cols.append((e, v, "arith"))
+        elif pos in ("col", "arith", "cmp", "arg"):
             kind = draw(st.sampled_from(["int", "float", "float", "bool"]))
             v = draw(ints) if kind == "int" else (draw(floats) if kind == "float" else draw(st.booleans()))
             prev = [c_[1] for c_ in cols if isinstance(c_[1], (int, float)) and c_[2] != "str-arg"]
@@ -133,7 +146,9 @@ def cases(draw, backend):
                 e = lit
                 col_kinds[len(cols)] = {"int": "int", "float": "double", "bool": "bool"}[kind]
             elif pos == "arith":
-                e = subst(parse(f"(j.{intm}() * 0 + L)" if kind != "float" else "(j.pt() * 0 + L)"), {"L": lit})
+                x = f"j.{intm}() * 0" if kind != "float" else "j.pt() * 0"
+                # (the literal right after a binary minus / as its left operand: a negative constant must not fuse with the operator)
+                e = subst(parse(draw(st.sampled_from([f"({x} + L)", f"({x} + L)", f"(0 - ({x} - L))", f"(L - {x})", f"(L * 1 + {x})"]))), {"L": lit})
             elif pos == "cmp":
                 e = subst(parse("(j.pt() < L)" if draw(st.booleans()) else f"(L <= j.{intm}())"), {"L": lit})
                 if kind == "bool":
@@ -190,7 +205,8 @@ def check(c):
     sch = standard_schema(backend)
     q = c["ast"]
     text = ast.unparse(q)
-    rep = {"backend": backend, "query": text, "wire": c["wire"], "events": [e.to_json() for e in evs], "bank": c["bank"], "tree": c["tree"], "names": c["names"],
+    neg_const = any(isinstance(n, ast.Constant) and isinstance(n.value, (int, float)) and not isinstance(n.value, bool) and str(n.value).startswith("-") for n in ast.walk(q))
+    rep = {"neg_const": neg_const, "backend": backend, "query": text, "wire": c["wire"], "events": [e.to_json() for e in evs], "bank": c["bank"], "tree": c["tree"], "names": c["names"],
            "acc": c["acc"], "col_kinds": c.get("col_kinds", {}), "lit_reprs": [v.hex() if isinstance(v, float) else repr(v) for v in c["lits"]]}
     all_ok = all(representable(v) for v in c["lits"])
     r = enginea.execute(to_wire(q, c["wire"]), backend, evs, cxx.std_model(backend))
@@ -286,6 +302,16 @@ def run(ctx: Ctx):
 
 def replay(case):
     q = ast.parse(case["query"], mode="eval").body
+    if case.get("neg_const"):
+        # the case held negative numbers as Constant nodes (what a captured python variable becomes); the parser gives a unary minus: fold it back
+        class Fold(ast.NodeTransformer):
+            def visit_UnaryOp(self, n):
+                self.generic_visit(n)
+                if isinstance(n.op, ast.USub) and isinstance(n.operand, ast.Constant) and isinstance(n.operand.value, (int, float)) and not isinstance(n.operand.value, bool):
+                    return ast.copy_location(ast.Constant(-n.operand.value), n)
+                return n
+
+        q = ast.fix_missing_locations(Fold().visit(q))
     # literals that do not survive ast.unparse (nan / inf) cannot be replayed from text; they are rejected anyway
     lits = []
     for s in case["lit_reprs"]:
